@@ -470,6 +470,8 @@ class Model(object):
                 return False
             fr.cut = f.name
             return True
+        if ax.original and ax.main != (fr.name, f.name):
+            return False          # running as the auxiliary of another frame: not this clause's to run
         self.segue(ax)
         self.recur(ax)
         if ax.done:
